@@ -182,7 +182,10 @@ def make_special() -> Any:
         CASES = ("param_with_default_unannotated", "two_recs_same_start_first_dest_defective",
                  "two_recs_same_start_second_dest_defective", "two_recs_same_start_valid",
                  "raw_generic_twin_of_rebound_first", "raw_generic_twin_of_rebound_second",
-                 "instance_twin_of_class_first", "instance_twin_of_class_second", "param_with_default_annotated")
+                 "instance_twin_of_class_first", "instance_twin_of_class_second", "param_with_default_annotated",
+                 "kwonly_param_unannotated", "kwonly_param_annotated",
+                 "defective_input_node_reached_only_implicitly_no_base", "defective_input_node_reached_only_implicitly_unannotated",
+                 "input_node_reached_only_implicitly_valid")
 
         def good(name: str, ann: Dict[str, Any], rec: bool = True, ad: bool = True) -> type:
             def process(self: Any, **kwargs: Any) -> Any:
@@ -210,6 +213,35 @@ def make_special() -> Any:
                         want = BE.UndefinedParamAnnotation
                     mid = type("Mid", (RecurrentProcessor,), {"process": process, "name": "mid"})
                     out = good("Out", {"x": M.Input(mid)})
+                elif case.startswith("kwonly_param"):
+                    def process(self: Any, a, *, scale) -> Any:  # noqa: ANN001
+                        return 0
+                    process.__annotations__ = {"a": M.Input(N1)}
+                    if case.endswith("_annotated"):
+                        process.__annotations__["scale"] = int
+                    else:
+                        want = BE.UndefinedParamAnnotation
+                    mid = type("Mid", (RecurrentProcessor,), {"process": process, "name": "mid"})
+                    out = good("Out", {"x": M.Input(mid)})
+                elif "input_node_reached_only_implicitly" in case:
+                    # no node names the input node in a mark: it is reached through the implicit link of mark-less leaves only
+                    if case.endswith("_no_base"):
+                        def process(self: Any, **kwargs: Any) -> Any:
+                            return 0
+                        N0 = type("N0", (), {"process": process, "name": "n0"})
+                        want = BE.IncorrectBaseClass
+                    elif case.endswith("_unannotated"):
+                        def process(self: Any, a, b) -> Any:  # noqa: ANN001
+                            return 0
+                        process.__annotations__ = {"a": int}
+                        N0 = type("N0", (RecurrentProcessor,), {"process": process, "name": "n0"})
+                        want = BE.UndefinedParamAnnotation
+                    leaf = good("Leaf", {}, ad=False)
+                    leaf2 = good("Leaf2", {}, ad=False)
+                    marks = [("x", M.Input(leaf)), ("y", M.Input(leaf2))]
+                    if order:
+                        marks.reverse()
+                    out = good("Out", dict(marks))
                 elif case.startswith("two_recs_same_start"):
                     bad_first = case.endswith("first_dest_defective")
                     bad_second = case.endswith("second_dest_defective")
@@ -319,9 +351,11 @@ register(Job("C16", "defect_x_placement", make(), tier="quick", budget_s=300,
                   "assumptions": ["finite-domain case split by z3; build_dag runs natively on each concrete case"]}))
 register(Job("C16", "cooperating_declarations", make_special(), tier="quick", budget_s=200,
              goals=("case:param_with_default_unannotated", "case:two_recs_same_start_first_dest_defective",
-                    "case:raw_generic_twin_of_rebound_first", "case:instance_twin_of_class_second", "case:two_recs_same_start_valid"),
+                    "case:raw_generic_twin_of_rebound_first", "case:instance_twin_of_class_second", "case:two_recs_same_start_valid",
+                    "case:kwonly_param_unannotated", "case:defective_input_node_reached_only_implicitly_no_base",
+                    "case:input_node_reached_only_implicitly_valid"),
              doc={"template": "9 declaration shapes that need two cooperating declarations x 2 parameter orders",
-                  "symbolic": ["case", "parameter order of the output node"], "functions": FUN, "bounds": "18 cases",
+                  "symbolic": ["case", "parameter order of the output node"], "functions": FUN, "bounds": "28 cases",
                   "assumptions": ["finite-domain case split by z3; build_dag runs natively on each concrete case"]}))
 register(Job("C16", "build_node_checks", make_build_node(), tier="quick", budget_s=120,
              goals=("kind:ok", "kind:instance", "kind:function", "kind:no_process"),
